@@ -250,3 +250,42 @@ class simulate_time_course:
         maybe(self.variables),
         maybe(self.simulation_parameters),
     ]
+
+
+# ----------------------------------------------------------------------------- variable overrides (C04)
+# Simulator.update_variables restarts the integrator's clock: afterwards `_time_shift` is
+# the ABSOLUTE time of the last recorded state (not an accumulated value), nothing
+# recorded so far changes, and the override is applied on top of the state the
+# simulation continues from.  Together with the contracts above: whatever sequence of
+# overrides and simulations, a continuation is decided and recorded in absolute time.
+
+
+@contract("mxlpy.simulator:Simulator._initialise_integrator")
+class initialise_integrator:
+    trusted = "builds the integrator object (symbolic Jacobian, lambdify, integrator constructor): outside the deductive part; only the frame is used - it writes the integrator field"
+    may_raise = (Exception,)
+    ensures = lambda self, result: True
+    modifies = lambda self: [field(self, "integrator")]
+
+
+@contract("mxlpy.simulator:Simulator.update_variables")
+class update_variables_clock:
+    requires = lambda self, variables: Inv(self) and not (variables is self.variables) and not (variables is self._errors)
+    may_raise = (Exception,)
+    ensures = lambda self, variables, result: [
+        result is self,
+        Inv(self),
+        self.variables is old(self.variables),
+        self.variables is None or unchanged(self.variables),
+        unchanged(self._errors),
+        implies(old(self.variables is None), self._time_shift is old(self._time_shift)),
+        implies(old(self.variables is not None), self._time_shift is not None and self._time_shift == old(reached(self))),
+        fresh(self.y0),
+        forall(lambda k: implies(k in variables, k in self.y0 and self.y0[k] is variables[k]), "val"),
+        # nothing simulated since the last restart: earlier overrides are kept
+        implies(
+            old(self.variables is None) or old(self._time_shift is not None and self._time_shift == reached(self)),
+            forall(lambda k: implies(old(k in self.y0) and not (k in variables), k in self.y0 and self.y0[k] is old(self.y0[k])), "val"),
+        ),
+    ]
+    modifies = lambda self, variables: [field(self, "y0"), field(self, "_time_shift"), field(self, "integrator")]
